@@ -178,6 +178,19 @@ CLAIMS = {
         design="6 C18",
         technique="explicit TLA+ spec of durable state; TLC enumerates histories x kill points; fault injection at every engine-call boundary in a child process, recovered state judged by TLC",
     ),
+    "C19": dict(
+        spec="FsConc.tla / FsConcGen.tla / FsConcJudge.tla",
+        text="Interleaving model: two sessions, each statement is the sequence of its engine calls (as-built decomposition of connect and of "
+        "CREATE TABLE with metadata); TLC explores every interleaving and checks NoError, NoHalfDone and Serializable - it finds the "
+        "check-then-create race of the tree before the fix and the half-done metadata of the current tree. Schedules with at most two "
+        "preemptions (who starts, where each is preempted) are enumerated by TLC for eight script pairs and replayed with real threads "
+        "under a deterministic scheduler that hands over exactly at engine-call boundaries (engine proxy); errors, hangs, lost "
+        "inserts, half-done observations and the final catalog are judged by TLC against the serial outcome. Thorough adds "
+        "free-running 16-thread runs (exploration).",
+        design="6 C19",
+        quick="VERIF_NPROC=8 ./vcheck C19 --tier quick", thorough="VERIF_NPROC=8 ./vcheck C19 --tier thorough",
+        technique="explicit TLA+ interleaving model checked by TLC; TLC-enumerated bounded-preemption schedules replayed deterministically on real threads and judged by TLC",
+    ),
 }
 
 
